@@ -34,11 +34,12 @@ func (P *Program) newGen(fn *ssa.Function, ct *Contract, tier string) *Gen {
 	return &Gen{P: P, fn: fn, ct: ct, key: funcKey(fn), tier: tier,
 		declared: map[string]bool{}, heapSort: map[string]string{}, vals: map[ssa.Value]Val{},
 		oblCount: map[string]int{}, callees: map[string]bool{}, siteOrd: map[string]int{},
-		fldK: map[string]int{}, frameTags: map[string]bool{}, frameDone: map[string]bool{}, verAlloc: map[string]string{}, tagAlloc: map[string]string{}, versions: map[string][]heapVersion{}, heapKind: map[string]string{}}
+		blockSplits: map[*ssa.BasicBlock][][]string{}, fldK: map[string]int{}, pendArr: map[*ssa.Alloc]*pendingArr{}, frameTags: map[string]bool{}, frameDone: map[string]bool{}, verAlloc: map[string]string{}, tagAlloc: map[string]string{}, versions: map[string][]heapVersion{}, heapKind: map[string]string{}}
 }
 
-func (P *Program) generate(fn *ssa.Function, ct *Contract, tier string) (g *Gen, unsup string) {
+func (P *Program) generate(fn *ssa.Function, ct *Contract, tier string, dead map[[2]int]bool) (g *Gen, unsup string) {
 	g = P.newGen(fn, ct, tier)
+	g.deadEdge = dead
 	defer func() {
 		if r := recover(); r != nil {
 			switch e := r.(type) {
@@ -137,6 +138,9 @@ func safeName(s string) string {
 func (P *Program) discharge(g *Gen, timeoutS int, confirm bool) {
 	base := g.script()
 	dir := filepath.Join(workDir, safeName(g.key))
+	if g.variant > 0 {
+		dir += fmt.Sprintf(".v%d", g.variant)
+	}
 	_ = os.MkdirAll(dir, 0o755)
 	var goals []*Obligation
 	for _, ob := range g.obls {
@@ -247,7 +251,43 @@ func (P *Program) dischargeGoals(g *Gen, goals []*Obligation, base, dir string, 
 			}
 			f := filepath.Join(dir, fmt.Sprintf("ob%03d.smt2", i))
 			_ = writeFile(f, scr)
-			r, alls := solve(f, timeoutS, confirm)
+			var r SolverResult
+			var alls []SolverResult
+			if combos := splitCombos(ob.Splits); len(combos) > 1 && !confirm {
+				// quick attempt on the whole goal, then one query per combination of
+				// incoming edges at the dominating merges (explicit case split)
+				r = runSolver(solvers[0], f, 2)
+				if r.Status != "unsat" && r.Status != "sat" {
+					t0 := time.Now()
+					okAll := true
+					var mu sync.Mutex
+					var swg sync.WaitGroup
+					for ci, combo := range combos {
+						swg.Add(1)
+						go func(ci int, combo []string) {
+							defer swg.Done()
+							sf := filepath.Join(dir, fmt.Sprintf("ob%03d.split%d.smt2", i, ci))
+							_ = writeFile(sf, base+"(assert "+and(combo...)+")\n(assert (not "+ob.Form+"))\n(check-sat)\n")
+							sr, _ := solve(sf, timeoutS, false)
+							if sr.Status != "unsat" {
+								mu.Lock()
+								okAll = false
+								mu.Unlock()
+							} else {
+								_ = os.Remove(sf)
+							}
+						}(ci, combo)
+					}
+					swg.Wait()
+					if okAll {
+						r = SolverResult{Status: "unsat", Solver: fmt.Sprintf("split×%d", len(combos)), Secs: time.Since(t0).Seconds()}
+					} else {
+						r, alls = solve(f, timeoutS, confirm)
+					}
+				}
+			} else {
+				r, alls = solve(f, timeoutS, confirm)
+			}
 			ob.Status, ob.Solver, ob.Secs, ob.Output = r.Status, r.Solver, r.Secs, r.Output
 			if confirm && r.Status == "unsat" {
 				n := 0
@@ -282,6 +322,31 @@ func (P *Program) dischargeGoals(g *Gen, goals []*Obligation, base, dir string, 
 		}(i, ob)
 	}
 	wg.Wait()
+}
+
+// splitCombos: all combinations of one incoming edge per merge, for the last
+// three merges at most (8 combinations).
+func splitCombos(splits [][]string) [][]string {
+	if len(splits) == 0 {
+		return nil
+	}
+	if len(splits) > 3 {
+		splits = splits[len(splits)-3:]
+	}
+	out := [][]string{{}}
+	for _, m := range splits {
+		var next [][]string
+		for _, c := range out {
+			for _, e := range m {
+				next = append(next, append(append([]string{}, c...), e))
+			}
+		}
+		out = next
+		if len(out) > 16 {
+			return nil
+		}
+	}
+	return out
 }
 
 // smoke is the vacuity guard: every basic block and every return must be
@@ -335,6 +400,10 @@ func (P *Program) smoke(g *Gen, base, dir string) {
 		ob.Output = fmt.Sprintf("smoke run answered %d of %d points\n%s", k, len(g.smokePts), truncate(out, 2000))
 		return
 	}
+	if dead == nil {
+		dead = []string{}
+	}
+	ob.Dead = dead
 	ob.Output = fmt.Sprintf("dead points (%d, contract declares %d): %v", len(dead), want, dead)
 	if len(dead) != want {
 		ob.Status = "vacuous"
@@ -363,27 +432,144 @@ func (P *Program) verify(key string, tier string, timeoutS int) *FuncResult {
 		res.Unsup = "function has no body"
 		return res
 	}
-	g, unsup := P.generate(fn, ct, tier)
-	res.Unsup = unsup
-	res.Abstract = g.unsup
-	res.Assumed = g.assumed
-	for c := range g.callees {
-		res.Callees = append(res.Callees, c)
+	// Path variants: a function with at most three control-flow merges (outside
+	// loop heads) is verified once per combination of incoming edges, each run
+	// treating the other incoming edges as not taken. No heap merge is needed
+	// then; an obligation is discharged when it is discharged in every variant.
+	variants := pathVariants(fn)
+	var gens []*Gen
+	for vi, dead := range variants {
+		g, unsup := P.generate(fn, ct, tier, dead)
+		if vi == 0 {
+			res.Unsup = unsup
+			res.Abstract = g.unsup
+			res.Assumed = g.assumed
+			for c := range g.callees {
+				res.Callees = append(res.Callees, c)
+			}
+			sort.Strings(res.Callees)
+		}
+		if unsup != "" {
+			res.Unsup = unsup
+			res.Secs = time.Since(t0).Seconds()
+			return res
+		}
+		g.variant = vi
+		gens = append(gens, g)
 	}
-	sort.Strings(res.Callees)
-	if unsup != "" {
-		res.Secs = time.Since(t0).Seconds()
-		return res
+	var wg sync.WaitGroup
+	for _, g := range gens {
+		wg.Add(1)
+		go func(g *Gen) {
+			defer wg.Done()
+			P.discharge(g, timeoutS, tier == "thorough")
+		}(g)
 	}
-	// property tags on obligations
-	for _, ob := range g.obls {
+	wg.Wait()
+	// combine
+	first := gens[0]
+	byName := map[string]*Obligation{}
+	for _, ob := range first.obls {
 		ob.Prop = ct.Props
+		byName[ob.Name] = ob
 	}
-	P.discharge(g, timeoutS, tier == "thorough")
-	res.Obls = g.obls
-	res.Lines = len(g.lines)
+	for _, g := range gens[1:] {
+		for _, ob := range g.obls {
+			m, ok := byName[ob.Name]
+			if !ok {
+				ob.Prop = ct.Props
+				ob.Status = "variant-mismatch"
+				first.obls = append(first.obls, ob)
+				continue
+			}
+			switch m.Kind {
+			case "cover":
+				if ob.Dead != nil || m.Dead != nil {
+					// a point is dead only if it is dead in every variant
+					keep := []string{}
+					for _, d := range m.Dead {
+						for _, d2 := range ob.Dead {
+							if d == d2 {
+								keep = append(keep, d)
+							}
+						}
+					}
+					m.Dead = keep
+				} else if ob.Status == "covered" {
+					m.Status = "covered"
+				}
+			default:
+				m.Secs += ob.Secs
+				if m.Status == "unsat" && ob.Status != "unsat" {
+					m.Status, m.Solver, m.Output = ob.Status, ob.Solver, ob.Output
+				}
+			}
+		}
+	}
+	for _, ob := range first.obls {
+		if ob.Kind == "cover" && ob.Dead != nil && ob.Status != "cover-unknown" {
+			ob.Output = fmt.Sprintf("dead points (%d, contract declares %d): %v", len(ob.Dead), ct.DeadPoints, ob.Dead)
+			if len(ob.Dead) != ct.DeadPoints {
+				ob.Status = "vacuous"
+			} else {
+				ob.Status = "covered"
+			}
+		}
+		if len(gens) > 1 && ob.Kind != "cover" && ob.Status == "unsat" {
+			ob.Solver += fmt.Sprintf(" (paths×%d)", len(gens))
+		}
+	}
+	res.Obls = first.obls
+	res.Lines = len(first.lines)
 	res.Secs = time.Since(t0).Seconds()
 	return res
+}
+
+// pathVariants enumerates, for up to three merge blocks, the sets of CFG
+// edges to treat as not taken (one incoming edge kept per merge block).
+func pathVariants(fn *ssa.Function) []map[[2]int]bool {
+	var merges []*ssa.BasicBlock
+	for _, b := range fn.Blocks {
+		if len(b.Preds) < 2 {
+			continue
+		}
+		back := false
+		for _, p := range b.Preds {
+			if isBackEdge(p, b) {
+				back = true
+			}
+		}
+		if !back && len(b.Succs) > 0 {
+			// merges that end the function (shared error returns) need no variant
+			merges = append(merges, b)
+		}
+	}
+	out := []map[[2]int]bool{{}}
+	if len(merges) == 0 || len(merges) > 3 {
+		return out
+	}
+	for _, m := range merges {
+		var next []map[[2]int]bool
+		for _, cur := range out {
+			for keep := range m.Preds {
+				nm := map[[2]int]bool{}
+				for k, v := range cur {
+					nm[k] = v
+				}
+				for j, p := range m.Preds {
+					if j != keep {
+						nm[[2]int{p.Index, m.Index}] = true
+					}
+				}
+				next = append(next, nm)
+			}
+		}
+		out = next
+		if len(out) > 12 {
+			return []map[[2]int]bool{{}}
+		}
+	}
+	return out
 }
 
 func main() {
